@@ -182,6 +182,7 @@ class Program:
         for (path, _), raw in zip(units, results):
             prog._add_unit(path, raw)
         prog.exports = parse_map(repo)
+        prog.apply_inlining()
         prog.wall["total"] = time.time() - t0
         return prog
 
@@ -220,6 +221,49 @@ class Program:
         for d in raw["declarations"]:
             self.declarations.setdefault(d["name"], d)
 
+    def apply_inlining(self):
+        """Static functions that are not anchors of the rules (helpers extracted after the rules were written)
+        are analysed in the context of their callers: see sa/inline.py."""
+        from .inline import inline_helpers
+        try:
+            with open(os.path.join(VERIF, "rules", "tables", "anchors.json")) as f:
+                anchors = set(json.load(f)["functions"])
+        except OSError:
+            return
+        self.inlined_helpers = {}
+        for tab in (self.functions, self.util_functions):
+            helpers = {}
+            for name, fn in tab.items():
+                if name in anchors or not fn.is_static or fn.file.endswith(".h"):
+                    continue
+                # address taken anywhere? then it is not a plain helper
+                taken = False
+                for g in tab.values():
+                    for n in g.nodes:
+                        if n.k == "DeclRefExpr" and n.j.get("dk") == "func" and n.j.get("name") == name:
+                            up = n.up()
+                            if not (up is not None and up.k == "CallExpr" and up.children and up.children[0].strip() is n):
+                                taken = True
+                if not taken and fn.j.get("cfg"):
+                    helpers[name] = fn.j
+            if not helpers:
+                continue
+            for name in list(tab):
+                fn = tab[name]
+                if name in helpers and False:
+                    continue
+                if not any(n.k == "CallExpr" and n.j.get("callee") in helpers and n.j.get("callee") != name for n in fn.nodes):
+                    continue
+                newj, done = inline_helpers(fn.j, helpers)
+                if done:
+                    nf = Function(newj, fn.unit, self)
+                    nf.inlined = done
+                    nf.original = fn
+                    tab[name] = nf
+            for name in helpers:
+                tab[name].is_inlined_helper = True
+                self.inlined_helpers[name] = tab[name]
+
     # ---- queries ---------------------------------------------------------------------
     def fn(self, name, util=False):
         tab = self.util_functions if util else self.functions
@@ -231,8 +275,9 @@ class Program:
     def has_fn(self, name, util=False):
         return name in (self.util_functions if util else self.functions)
 
-    def lib_functions(self):
-        return [f for f in self.functions.values() if f.unit.startswith("lib/") and not f.file.endswith(".h")]
+    def lib_functions(self, with_helpers=False):
+        return [f for f in self.functions.values() if f.unit.startswith("lib/") and not f.file.endswith(".h")
+                and (with_helpers or not getattr(f, "is_inlined_helper", False))]
 
     def entry_points(self):
         return [n for n in self.exports if n in self.functions]
